@@ -983,6 +983,11 @@ where
                 }
             };
 
+            // If a previous `format_event` call on this thread panicked, the
+            // buffer was not cleared on the way out; never prefix this record
+            // with the remains of an aborted one.
+            buf.clear();
+
             let ctx = self.make_ctx(ctx, event);
             if self
                 .fmt_event
